@@ -165,7 +165,7 @@ CLAIMED = {
     "C11": ("Theorems: limit(n;f) ++ skip(n;f) = f for every machine-integer count and every stream (error/break/out-of-fuel "
             "terminated included), non-positive counts, first = limit 1, nothing follows the first error; last(f) is the last element of the "
             "collected stream and is ended by the first error inside it, nth(n; f) = first(skip(n; f)) is the n-th output, nothing beyond the end, "
-            "the first for n <= 0, isempty(g) = first((g | false), true) looks at the first output only (Proofs/LastLaws.v); reduce and foreach of the "
+            "the first for n <= 0, isempty(g) = first((g | false), true) looks at the first output only, all/any are the conjunction/disjunction of the truth values and stop at the first deciding one (Proofs/LastLaws.v); reduce and foreach of the "
             "interpreter equal their nested-pipe expansion for every number of outputs of update and projection (fold_expansion, "
             "reduce_is_nested_pipes); native range/3 on machine integers with positive step is exactly the arithmetic progression below "
             "the bound. Correspondence + oracle: the "
